@@ -128,7 +128,23 @@ def relevant(result: dict, prop: str):
     return [v for v in result.get("violations", []) if v.get("property") == prop]
 
 
+def _own_scratch():
+    """All scratch directories of this invocation live under one parent that is removed when the driver exits (children
+    killed by their wall limit cannot clean up after themselves)."""
+    import atexit
+    import shutil
+    import tempfile
+    if os.environ.get("VERIF_SCRATCH") and os.path.isdir(os.environ["VERIF_SCRATCH"]):
+        return
+    base = "/dev/shm" if os.path.isdir("/dev/shm") else None
+    root = tempfile.mkdtemp(prefix="frame-verif-run-", dir=base)
+    os.environ["VERIF_SCRATCH"] = root
+    pid = os.getpid()
+    atexit.register(lambda: os.getpid() == pid and shutil.rmtree(root, ignore_errors=True))
+
+
 def check(prop: str, tier: str) -> int:
+    _own_scratch()
     t0 = time.time()
     seed = rngmod.env_seed()
     engine = load_engine(prop)
@@ -425,6 +441,7 @@ def confirm_shrink_write(engine, prop, case, v, harness_msgs):
 
 
 def replay(path: str) -> int:
+    _own_scratch()
     with open(path) as f:
         doc = json.load(f)
     prop = doc["property"]
@@ -478,6 +495,7 @@ def replay(path: str) -> int:
 
 
 def digests(prop: str, tier: str, indices) -> int:
+    _own_scratch()
     seed = rngmod.env_seed()
     engine = load_engine(prop)
     import_frame()
@@ -491,6 +509,7 @@ def digests(prop: str, tier: str, indices) -> int:
 
 
 def worlddigest(path: str) -> int:
+    _own_scratch()
     with open(path) as f:
         doc = json.load(f)
     engine = load_engine(doc["property"])
